@@ -40,6 +40,12 @@ def gen(r, n):
     scs.append(dict(u=150, period=1, ta=2, grace=2, leak=0.7, dur=6, on_term=("late_ok", 0.5), sigs=[]))
     scs.append(dict(u=150, period=1, ta=1, grace=2, leak=0.7, dur=6, on_term=("late_ok", 0.5), sigs=[],
                     as_script=True))
+    # the run is cancelled by another test's failure (fail-fast, no signal) while the subject, terminated at its
+    # deadline, is inside its grace period and about to exit by itself: SIGKILL only when the grace period ends
+    scs.append(dict(u=150, period=1, ta=1, grace=4, leak=0.7, dur=6, on_term=("late_ok", 1.5), sigs=[], cancel_at=1.7))
+    scs.append(dict(u=150, period=1, ta=2, grace=3, leak=0.7, dur=7, on_term=("late", 1.5), sigs=[], cancel_at=2.6))
+    # ... and cancelled before the deadline: terminated at the deadline all the same, not earlier
+    scs.append(dict(u=150, period=1, ta=2, grace=1, leak=0.7, dur=6, on_term="exit", sigs=[], cancel_at=0.8))
     while len(scs) < n:
         period = r.choice([1, 2])
         ta = r.choice([None, 1, 2, 3])
@@ -82,7 +88,7 @@ def run(tier, seed):
         chk.violation("broken-obligation", "e2e-build", dict(error=str(ex)[-3000:]), no_input=True)
         return chk.finish(gate, "make -C coq Properties/C09.vo", [])
     r = vlib.rng_for(seed, PROP)
-    scs = gen(r, 90 if tier == "thorough" else 22)
+    scs = gen(r, 90 if tier == "thorough" else 27)
     U.check_family(chk, rig, scs, U.oracle_C09, "c09")
     for sc in scs[:3]:
         chk.sample(sc)
